@@ -514,6 +514,35 @@ def _keys(ctx, inst):
         chk.ok("R14.b", sd.qualname, sd.loc(d2), f"keys {sorted(k2)} = from_dict parameters")
     else:
         chk.violation("R14.b", sd, d2, f"Schedule.to_dict keys {sorted(k2)} differ from from_dict's parameters {fd.params}", loc=sd.loc(d2))
+    # ... and from_dict reads the embedded instance dictionary back completely:
+    # either wholesale (`from_matrices(**instance)`) or key by key - then every
+    # key JobShopInstance.to_dict writes must be read
+    fdf = ctx.norm.flat(fd, depth=3)
+    ipar = next((p_ for p_ in fd.params if p_ == "instance"), None)
+    if ipar is not None:
+        wholesale = any(
+            isinstance(c, ast.Call) and any(k.arg is None and isinstance(k.value, ast.Name) and k.value.id == ipar for k in c.keywords)
+            for c in own_nodes(fdf.node)
+        )
+        reads = set()
+        for x in own_nodes(fdf.node):
+            if isinstance(x, ast.Subscript) and isinstance(x.value, ast.Name) and x.value.id == ipar and isinstance(x.slice, ast.Constant) and isinstance(x.slice.value, str):
+                reads.add(x.slice.value)
+            elif (
+                isinstance(x, ast.Call) and isinstance(x.func, ast.Attribute) and x.func.attr in ("get", "pop") and isinstance(x.func.value, ast.Name)
+                and x.func.value.id == ipar and x.args and isinstance(x.args[0], ast.Constant) and isinstance(x.args[0].value, str)
+            ):
+                reads.add(x.args[0].value)
+        if reads and not wholesale:
+            lost = set(keys) - reads
+            if lost:
+                chk.violation(
+                    "R14.b", fd, None,
+                    f"Schedule.from_dict reads {sorted(reads)} of the embedded instance dictionary but not {sorted(lost)}, which "
+                    "JobShopInstance.to_dict writes: the schedule's dictionary round trip loses it (the rebuilt instance gets a default)",
+                )
+            else:
+                chk.ok("R14.b", fd.qualname, fd.loc(), f"embedded instance read key by key: {sorted(reads)}")
     # R14.f: derived views computed with buffered fancy-index updates
     inst = repo.find_class("JobShopInstance")
     n_upd = 0
@@ -575,7 +604,23 @@ def _no_hang(ctx):
     fjs = sched.methods.get("from_job_sequences")
     if fjs is None:
         raise AnalysisError("Schedule.from_job_sequences vanished")
+    entry = fjs
     loops = [n for n in own_nodes(fjs.node) if isinstance(n, ast.While)]
+    if not loops:
+        # the replay may have become a method of a private helper object
+        # ("method object"): the loop is looked for in what from_job_sequences
+        # runs, private code of the same module only
+        hosts = []
+        for f, rc, via in ctx.effects.closure(fjs, sched, max_depth=3):
+            if f is fjs or isinstance(f.node, ast.Lambda) or f.module is not fjs.module:
+                continue
+            if not (f.name.startswith("_") or (f.cls is not None and f.cls.name.startswith("_"))):
+                continue
+            ws = [n for n in own_nodes(f.node) if isinstance(n, ast.While)]
+            if ws:
+                hosts.append((f, ws))
+        if len(hosts) == 1:
+            fjs, loops = hosts[0]
     if len(loops) != 1:
         raise AnalysisError("from_job_sequences: while loop not found exactly once")
     w = loops[0]
@@ -588,7 +633,7 @@ def _no_hang(ctx):
         max_depth=2, unroll=2,
         inline_filter=lambda t: t is not dispatch and (t.cls is None or t.cls.name != "Dispatcher"),
     )
-    fr = Frame(fjs, None)
+    fr = Frame(fjs, fjs.cls if fjs is not entry else None)
     body_paths = eng._block_paths(w.body, fr)
     n = 0
     bad = False
@@ -737,6 +782,16 @@ def _feasible(evs) -> bool:
                 if isinstance(x, ast.Call) and id(x) in last_ret:
                     r = last_ret[id(x)]  # the (inlined) call's constant result on this path
                     return (r == "pos") if r in ("zero", "pos") else r
+                if (
+                    isinstance(x, ast.Compare) and len(x.ops) == 1 and isinstance(x.left, ast.Call) and id(x.left) in last_ret
+                    and last_ret[id(x.left)] in ("zero", "pos") and isinstance(x.comparators[0], ast.Constant) and isinstance(x.comparators[0].value, int)
+                ):
+                    # `self._sweep() == 0` on the counter an inlined step returned
+                    pos, k, op = last_ret[id(x.left)] == "pos", x.comparators[0].value, x.ops[0]
+                    if isinstance(op, ast.Gt) and k == 0 or isinstance(op, ast.GtE) and k == 1 or isinstance(op, ast.NotEq) and k == 0:
+                        return pos
+                    if isinstance(op, ast.Eq) and k == 0 or isinstance(op, ast.Lt) and k == 1 or isinstance(op, ast.LtE) and k == 0:
+                        return not pos
                 if isinstance(x, ast.Compare) and len(x.ops) == 1 and isinstance(x.left, ast.Name) and isinstance(x.comparators[0], ast.Name):
                     a, b = x.left.id, x.comparators[0].id
                     for cur, before in ((a, b), (b, a)):
